@@ -12,7 +12,7 @@ COMMON_ASSUMPTIONS = [
 PROPS = {
     "C01": {
         "harness": "c01",
-        "quick": {"workers": 8, "cases": 1200, "size": 26},
+        "quick": {"workers": 8, "cases": 1200, "size": 30},
         "thorough": {"workers": 16, "cases": 15000, "size": 40},
         "min_nontrivial_frac": 0.25,
         "min_tag_frac": {"verdict:included": 0.15, "verdict:not-included": 0.15},
@@ -21,5 +21,76 @@ PROPS = {
                 "an exact reference (pair exploration (q,S), witness re-validated). Non-trivial: L(A) and L(B) non-empty and some accepting run of A uses "
                 "a non-nullary rule. Distinct: hash of the canonical case text.",
         "assumptions": COMMON_ASSUMPTIONS + ["simulation selections are driven through SanitizeAutsForInclusion + UnionDisjointStates + ComputeSimulation exactly like cli/operations.hh"],
+    },
+    "C02": {
+        "harness": "c02",
+        "quick": {"workers": 8, "cases": 600, "size": 24},
+        "thorough": {"workers": 16, "cases": 8000, "size": 34},
+        "min_nontrivial_frac": 0.25,
+        "rule": GEN_TA + "pairs (A,B) with overlapping state numbers (Union, Intersection, IntersectionBU) and offset-disjoint numbers (UnionDisjointStates); "
+                "result languages compared with reference union/product, translation maps checked semantically (language from the result state = language from the "
+                "named operand state / pair), operands re-read after every call, pre-filled Union maps, and the cli/vata.cc naming flow (dictionaries, -s/-p pruning, "
+                "CreateUnionStringToStateMap/CreateProductStringToStateMap, named dump). Non-trivial: both languages non-empty and the product non-empty, or "
+                "overlapping state numbers with a non-empty union. Distinct: hash of the canonical case text.",
+        "assumptions": COMMON_ASSUMPTIONS + ["Intersection*/Union maps are passed empty except in the documented [in,out] pre-filled Union variant"],
+    },
+    "C03": {
+        "harness": "c03",
+        "quick": {"workers": 8, "cases": 2500, "size": 24},
+        "thorough": {"workers": 16, "cases": 30000, "size": 36},
+        "min_nontrivial_frac": 0.3,
+        "rule": GEN_TA + "single automata plus injected shapes (final state without rules + unreachable rule owner, no final state, rule over a never-productive child); "
+                "RemoveUnreachableStates / RemoveUselessStates (with and without translation map) compared by language with the input and checked for dead states/rules on the result; "
+                "IsLangEmpty against the productivity fixpoint. Non-trivial: the input has an unreachable rule owner or an unproductive state. Distinct: hash of the case text.",
+        "assumptions": COMMON_ASSUMPTIONS,
+    },
+    "C04": {
+        "harness": "c04",
+        "quick": {"workers": 8, "cases": 2000, "size": 24},
+        "thorough": {"workers": 16, "cases": 20000, "size": 36},
+        "min_nontrivial_frac": 0.2,
+        "rule": GEN_TA + "downward simulation on arbitrary automata, upward simulation on reference-trimmed automata, states renumbered 0..n-1 through a generated permutation, "
+                "n passed as NumStates; every pair (q,r) compared with the naive greatest fixpoint of the definition. Non-trivial: the reference relation is neither the identity "
+                "nor total. Distinct: hash of the case text.",
+        "assumptions": COMMON_ASSUMPTIONS + ["upward simulation is only requested for trimmed automata (stated precondition); the empty automaton is not exercised"],
+    },
+    "C05": {
+        "harness": "c05",
+        "quick": {"workers": 8, "cases": 1500, "size": 20},
+        "thorough": {"workers": 16, "cases": 12000, "size": 30},
+        "min_nontrivial_frac": 0.2,
+        "rule": GEN_TA + "automata with sparse/dense numbers, useless states and (flavours 1,2) every state split in two copies to create simulation-equivalent states; "
+                "Reduce() / Reduce(TA_DOWNWARD): language equal to the input's, no more states, no more rules, and existence of a map from input states onto result states under which "
+                "every result rule/final is an image. Non-trivial: two useful states are downward-simulation equivalent. Distinct: hash of the case text.",
+        "assumptions": COMMON_ASSUMPTIONS,
+    },
+    "C06": {
+        "harness": "c06",
+        "quick": {"workers": 8, "cases": 800, "size": 16},
+        "thorough": {"workers": 16, "cases": 6000, "size": 22},
+        "min_nontrivial_frac": 0.15,
+        "rule": GEN_TA + "automata with <= 3 (thorough 4) states plus extra registered symbols, in the child's pristine global alphabet or a private OnTheFlyAlphabet; the alphabet S is read back "
+                "from the automaton's dictionary; Complement checked by: empty product with A, universality of A+C over S (exact reference inclusion), no foreign symbol, and "
+                "enumeration of all small trees over S. Non-trivial: L(A) neither empty nor universal and S has a symbol of arity >= 2. Distinct: hash of the case text.",
+        "assumptions": COMMON_ASSUMPTIONS,
+    },
+    "C14": {
+        "harness": "c14",
+        "quick": {"workers": 8, "cases": 2000, "size": 24},
+        "thorough": {"workers": 16, "cases": 20000, "size": 36},
+        "min_nontrivial_frac": 0.2,
+        "rule": GEN_TA + "automaton + total state map (identity / injective / merging / into sparse numbers) through ReindexStates(functor), ReindexStates(dst, functor, addFinalStates) into empty and "
+                "non-empty destinations, ReindexStates(weak translator) empty and pre-filled, CollapseStates, and an arity-preserving symbol map through TranslateSymbols; the result must be "
+                "set-equal to the image. Non-trivial: the map merges two owners of rules for the same symbol, or is a non-identity injection on an automaton with a non-nullary accepting run.",
+        "assumptions": COMMON_ASSUMPTIONS + ["state maps are total on the used states (CollapseStates/ReindexStates use at())"],
+    },
+    "C15": {
+        "harness": "c15",
+        "quick": {"workers": 8, "cases": 2000, "size": 24},
+        "thorough": {"workers": 16, "cases": 20000, "size": 36},
+        "min_nontrivial_frac": 0.2,
+        "rule": GEN_TA + "automata extended by chains of unary/binary rules (deep shortest trees), unproductive final states, leaf-only languages, empty languages; GetCandidateTree's result must be "
+                "language-included in the input (exact reference) and non-empty whenever the input is. Non-trivial: non-empty language and (shallowest found witness of depth >= 3 or an unproductive final state).",
+        "assumptions": COMMON_ASSUMPTIONS,
     },
 }
